@@ -113,6 +113,9 @@ func routeSpecs() []RouteSpec {
 		{Key: "loki_query", Tmpl: "/loki/api/v1/query", Lang: "logql", Unit: "ns",
 			Params: []string{"time", "step", "limit"},
 			Build:  simpleGet("/loki/api/v1/query", "query", "time", "step", "limit")},
+		// the websocket route without an upgrade (the handler plans the query, starts the poller, then fails the
+		// upgrade); the upgraded conversation is exercised by the loki_tail cases (readerharness.DoTail)
+		{Key: "loki_tail_http", Tmpl: "/loki/api/v1/tail", Lang: "logql_tail", Build: simpleGet("/loki/api/v1/tail", "query")},
 		{Key: "loki_labels", Tmpl: "/loki/api/v1/labels", Lang: "none", Unit: "ns", Params: se,
 			Build: simpleGet("/loki/api/v1/labels", "", "start", "end")},
 		{Key: "loki_label", Tmpl: "/loki/api/v1/label", Lang: "none", Unit: "ns", Params: se,
